@@ -67,3 +67,47 @@ Example C19_nonvacuous :
   /\ mfold (@d_push nat) [step_new 1 0 5 2] (d_reset (d_new nat 0) 1) = Panic PAssert.
 Proof. split; reflexivity. Qed.
 Print Assumptions C19_nonvacuous.
+
+(* ---- "... which for any dendrogram returned by a clustering function equals the number of
+   observations beneath that label" ---- *)
+Require Import KV.Model.Methods KV.Model.State KV.Model.Primitive KV.Model.Mst
+  KV.Proofs.RelabelWF KV.Proofs.DendUnique KV.Proofs.ClusterSizes KV.Proofs.PrimitiveWF KV.Proofs.MstWF.
+
+(* in ANY well-formed stepwise dendrogram (what C01 establishes of returned dendrograms): after j
+   steps every label in use carries exactly as many observations as cluster_size reports, and the
+   size recorded by step j is the number of observations carried to label n + j *)
+Theorem C19_members_csize : forall (T : Type) (n : nat) (D : list (step T)), wf_dend n D ->
+  forall j, j <= length D -> forall l,
+    (l < n + j /\ forall i t, i < j -> nth_error D i = Some t -> s_c1 t <> l /\ s_c2 t <> l) ->
+    length (filter (fun x => labi n D j x =? l) (seq 0 n)) = csize n D l.
+Proof. exact members_csize. Qed.
+Print Assumptions C19_members_csize.
+
+Theorem C19_size_is_member_count : forall (T : Type) (n : nat) (D : list (step T)), wf_dend n D ->
+  forall j t, nth_error D j = Some t ->
+    s_size t = length (filter (fun x => labi n D (S j) x =? n + j) (seq 0 n)).
+Proof. exact size_is_member_count. Qed.
+Print Assumptions C19_size_is_member_count.
+
+(* instances with no hypothesis on the input at all: primitive (7 methods) and mst / linkage-single,
+   any carrier whose `<` is transitive and irreflexive, any prior state, both profiles *)
+Theorem C19_primitive_sizes : forall (T : Type) (K : kops T) (p : profile),
+  (forall a b c, k_ltb K a b = true -> k_ltb K b c = true -> k_ltb K a c = true) ->
+  (forall a, k_ltb K a a = false) ->
+  forall meth s d m n s' d' m' j t,
+  primitive_with K p meth s d m n = Ok (s', d', m') -> nth_error (d_steps d') j = Some t ->
+  s_size t = length (filter (fun x => labi (d_obs d') (d_steps d') (S j) x =? d_obs d' + j) (seq 0 (d_obs d'))).
+Proof.
+  intros T K p H1 H2 meth s d m n s' d' m' j t H Ht.
+  exact (@size_is_member_count T (d_obs d') (d_steps d') (@primitive_wf T K p H1 H2 meth s d m n s' d' m' H) j t Ht).
+Qed.
+Print Assumptions C19_primitive_sizes.
+
+Theorem C19_mst_sizes : forall (T : Type) (K : kops T) (p : profile) s d m n s' d' m' j t,
+  mst_with K p s d m n = Ok (s', d', m') -> nth_error (d_steps d') j = Some t ->
+  s_size t = length (filter (fun x => labi (d_obs d') (d_steps d') (S j) x =? d_obs d' + j) (seq 0 (d_obs d'))).
+Proof.
+  intros T K p s d m n s' d' m' j t H Ht.
+  exact (@size_is_member_count T (d_obs d') (d_steps d') (@mst_wf T K p s d m n s' d' m' H) j t Ht).
+Qed.
+Print Assumptions C19_mst_sizes.
